@@ -95,11 +95,11 @@ Proof.
   - apply nth_overflow. exact Hge.
 Qed.
 
-Lemma eval_block_at_ss T ss prog b P : ss_consistent ss prog -> In b prog ->
+Lemma eval_block_at_ss (force : bool) T ss prog b P : ss_consistent ss prog -> In b prog ->
   (forall oe, In oe (sb_outs b) -> (fst oe < length P)%nat) ->
-  at_ss ss P -> at_ss ss (eval_block T ss ss P b) /\ length (eval_block T ss ss P b) = length P.
+  at_ss ss P -> at_ss ss (eval_block force T ss ss P b) /\ length (eval_block force T ss ss P b) = length P.
 Proof.
-  intros Hc Hb Hlen Hat. unfold eval_block. destruct (existsb (perturbed P) (sb_ins b)); [|split; [exact Hat | reflexivity]].
+  intros Hc Hb Hlen Hat. unfold eval_block. destruct (force || existsb (perturbed P) (sb_ins b)); [|split; [exact Hat | reflexivity]].
   pose proof (penv_at_ss ss P Hat) as Henv.
   assert (Hgen : forall outs P', (forall oe, In oe outs -> In oe (sb_outs b)) -> at_ss ss P' -> length P' = length P ->
      at_ss ss (fold_left (fun P'' oe => upd_nth (fst oe) (map (fun t => qeval_td (Some T) (qlookup ss) (qlookup ss) (penv P ss) (snd oe) (Z.of_nat t)) (seq 0 (Z.to_nat T))) P'') outs P')
@@ -115,14 +115,14 @@ Proof.
   apply Hgen; [auto | exact Hat | reflexivity].
 Qed.
 
-Lemma nl_eval_at_ss T ss prog : ss_consistent ss prog -> forall P,
-  (forall b oe, In b prog -> In oe (sb_outs b) -> (fst oe < length P)%nat) -> at_ss ss P -> at_ss ss (nl_eval T ss ss prog P).
+Lemma nl_eval_at_ss (force : bool) T ss prog : ss_consistent ss prog -> forall P,
+  (forall b oe, In b prog -> In oe (sb_outs b) -> (fst oe < length P)%nat) -> at_ss ss P -> at_ss ss (nl_eval force T ss ss prog P).
 Proof.
   intros Hc. unfold nl_eval.
   assert (Hgen : forall bs, (forall b, In b bs -> In b prog) -> forall P,
-     (forall b oe, In b prog -> In oe (sb_outs b) -> (fst oe < length P)%nat) -> at_ss ss P -> at_ss ss (fold_left (eval_block T ss ss) bs P)).
+     (forall b oe, In b prog -> In oe (sb_outs b) -> (fst oe < length P)%nat) -> at_ss ss P -> at_ss ss (fold_left (eval_block force T ss ss) bs P)).
   { induction bs as [|b bs IH]; intros Hin P Hlen Hat; cbn [fold_left]; [exact Hat|].
-    destruct (eval_block_at_ss T ss prog b P Hc (Hin b (or_introl eq_refl)) (fun oe H => Hlen b oe (Hin b (or_introl eq_refl)) H) Hat) as [Hat' Hl'].
+    destruct (eval_block_at_ss force T ss prog b P Hc (Hin b (or_introl eq_refl)) (fun oe H => Hlen b oe (Hin b (or_introl eq_refl)) H) Hat) as [Hat' Hl'].
     apply IH; [intros; apply Hin; right; assumption | rewrite Hl'; exact Hlen | exact Hat']. }
   intros P; apply Hgen; auto.
 Qed.
@@ -162,15 +162,15 @@ Proof.
   unfold qltb. pose proof (proj1 (Qclt_alt g0 tol) H) as H'. rewrite H'. reflexivity.
 Qed.
 
-Theorem nl_zero_shock_lemma maxit N T ss prog U Tg shocks tol :
+Theorem nl_zero_shock_lemma (force : bool) maxit N T ss prog U Tg shocks tol :
   ss_consistent ss prog ->
   (forall b oe, In b prog -> In oe (sb_outs b) -> (fst oe < N)%nat) ->
   (forall d, In d shocks -> (fst d < N)%nat) -> (forall u, In u U -> (u < N)%nat) ->
   (forall d v, In d shocks -> In v (snd d) -> v = g0) ->
   (g0 < tol)%Qc ->
   let U0 := map (fun _ => repeat g0 (Z.to_nat T)) U in
-  let res := nl_results N T ss ss prog U shocks U0 in
-  nl_solve (S maxit) N T ss ss prog U Tg shocks tol = Converged U0 res /\
+  let res := nl_results force N T ss ss prog U shocks U0 in
+  nl_solve force (S maxit) N T ss ss prog U Tg shocks tol = Converged U0 res /\
   forall o v, In v (dev_of ss res o) -> v = g0.
 Proof.
   intros Hc Hout Hsh HU Hz Htol U0 res.
@@ -191,17 +191,17 @@ Proof.
 Qed.
 
 (** ---- what a returned solution satisfies ---- *)
-Theorem nl_solve_sound_lemma maxit N T ss ssi prog U Tg shocks tol Up res :
-  nl_solve maxit N T ss ssi prog U Tg shocks tol = Converged Up res ->
-  res = nl_eval T ss ssi prog (init_paths N ss (shocks ++ combine U Up)) /\
+Theorem nl_solve_sound_lemma (force : bool) maxit N T ss ssi prog U Tg shocks tol Up res :
+  nl_solve force maxit N T ss ssi prog U Tg shocks tol = Converged Up res ->
+  res = nl_eval force T ss ssi prog (init_paths N ss (shocks ++ combine U Up)) /\
   forall tg v, In tg Tg -> In v (dev_of ss res tg) -> (- tol < v)%Qc /\ (v < tol)%Qc.
 Proof.
   unfold nl_solve. intros H. apply nl_loop_sound in H. destruct H as [Hr Hok]. split; [exact Hr|].
   intros tg v Htg Hv. apply qabs_bound. eapply nl_ok_spec; eassumption.
 Qed.
 
-Theorem nl_solve_no_return_lemma N T ss ssi prog U Tg shocks tol Up res :
-  nl_solve 0 N T ss ssi prog U Tg shocks tol <> Converged Up res.
+Theorem nl_solve_no_return_lemma (force : bool) N T ss ssi prog U Tg shocks tol Up res :
+  nl_solve force 0 N T ss ssi prog U Tg shocks tol <> Converged Up res.
 Proof. unfold nl_solve; cbn [nl_loop]; discriminate. Qed.
 
 (** ---- the steady state computed along a well-formed order is consistent with every block ---- *)
@@ -327,4 +327,181 @@ Proof.
     split; [apply Nat.ltb_lt; exact Hv1 | apply memb_false; apply negb_true_iff; exact Hv2].
   - intros b' o Hb' Ho. match goal with Hv : forall x, In x rest -> _ |- _ => specialize (Hv b' Hb'); rewrite forallb_forall in Hv; specialize (Hv o Ho); apply andb_prop in Hv; destruct Hv as [Hv1 Hv2] end.
     split; apply memb_false; apply negb_true_iff; assumption.
+Qed.
+
+(** ---- the steady state does not depend on the listing order ---- *)
+Lemma consistent_unique N prog (s s' : tbl) : wf_prog N prog -> ss_consistent s prog -> ss_consistent s' prog ->
+  (forall x, (forall b, In b prog -> ~ In x (outs_of b)) -> qlookup s x = qlookup s' x) ->
+  forall b o, In b prog -> In o (outs_of b) -> qlookup s o = qlookup s' o.
+Proof.
+  induction prog as [|b0 rest IH]; intros Hwf Hc Hc' Hext b o Hb Ho; [destruct Hb|].
+  cbn [wf_prog] in Hwf. destruct Hwf as (Hvars & Hnd & Hlt & Hlater & Hrest).
+  assert (Hins : forall x, In x (sb_ins b0) -> qlookup s x = qlookup s' x).
+  { intros x Hx. apply Hext. intros b1 [<-|Hb1] Hox; [apply (proj2 (Hlt x Hox)); exact Hx | apply (proj1 (Hlater b1 x Hb1 Hox)); exact Hx]. }
+  assert (Hb0 : forall o0, In o0 (outs_of b0) -> qlookup s o0 = qlookup s' o0).
+  { intros o0 Ho0. unfold outs_of in Ho0. apply in_map_iff in Ho0. destruct Ho0 as [oe [<- Hoe]].
+    rewrite <- (Hc b0 oe (or_introl eq_refl) Hoe), <- (Hc' b0 oe (or_introl eq_refl) Hoe).
+    apply eval_ss_ext. intros x Hx. apply Hins. eapply Hvars; eassumption. }
+  destruct Hb as [<-|Hb]; [apply Hb0; exact Ho|].
+  apply (IH Hrest (fun b1 oe H1 H2 => Hc b1 oe (or_intror H1) H2) (fun b1 oe H1 H2 => Hc' b1 oe (or_intror H1) H2)) with (b := b); [|exact Hb | exact Ho].
+  intros x Hx. destruct (in_dec Nat.eq_dec x (outs_of b0)) as [Hi|Hn]; [apply Hb0; exact Hi|].
+  apply Hext. intros b1 [<-|Hb1]; [exact Hn | apply Hx; exact Hb1].
+Qed.
+
+Theorem ss_order_independent_lemma N prog prog' calib : length calib = N -> wf_prog N prog -> wf_prog N prog' ->
+  (forall b, In b prog <-> In b prog') -> ss_eval prog calib = ss_eval prog' calib.
+Proof.
+  intros Hl Hwf Hwf' Hperm.
+  pose proof (ss_eval_consistent_lemma N prog calib Hl Hwf) as Hc.
+  pose proof (ss_eval_consistent_lemma N prog' calib Hl Hwf') as Hc'.
+  destruct (ss_eval_untouched N prog calib Hl (wf_prog_outs_lt N prog Hwf)) as [L Hun].
+  destruct (ss_eval_untouched N prog' calib Hl (wf_prog_outs_lt N prog' Hwf')) as [L' Hun'].
+  assert (Hc2 : ss_consistent (ss_eval prog' calib) prog) by (intros b oe Hb Hoe; exact (Hc' b oe (proj1 (Hperm b) Hb) Hoe)).
+  assert (Hext : forall x, (forall b, In b prog -> ~ In x (outs_of b)) -> qlookup (ss_eval prog calib) x = qlookup (ss_eval prog' calib) x).
+  { intros x Hx. rewrite Hun by exact Hx. rewrite Hun'; [reflexivity|]. intros b Hb. apply Hx. apply Hperm. exact Hb. }
+  apply (nth_ext _ _ q0 q0); [rewrite L, L'; reflexivity|]. intros x _.
+  destruct (existsb (fun b => memb x (outs_of b)) prog) eqn:E.
+  - apply existsb_exists in E. destruct E as [b [Hb Ho]]. apply memb_In in Ho.
+    exact (consistent_unique N prog _ _ Hwf Hc Hc2 Hext b x Hb Ho).
+  - apply Hext. intros b Hb Ho. assert (existsb (fun b => memb x (outs_of b)) prog = true); [|congruence].
+    apply existsb_exists. exists b. split; [exact Hb | apply memb_In; exact Ho].
+Qed.
+
+(** ---- the nonlinear evaluation of the DAG does not depend on the listing order ---- *)
+Lemma eval_td_ext T ss ssi (env env' : nat -> Z -> Qc) e : (forall x, In x (evars e) -> forall u, env x u = env' x u) ->
+  forall t, qeval_td T ss ssi env e t = qeval_td T ss ssi env' e t.
+Proof.
+  unfold qeval_td. induction e as [x|c|k e IH|e IH|e IH|a IHa b IHb|a IHa b IHb|a IHa b IHb|a IHa b IHb|a IHa n]; intros H t;
+    cbn [SimpleBlk.eval_td evars] in *; try reflexivity;
+    try (rewrite IH by exact H; reflexivity);
+    try (rewrite IHa, IHb by (intros; apply H; apply in_or_app; auto); reflexivity).
+  - apply H. left; reflexivity.
+  - rewrite IHa by exact H. reflexivity.
+Qed.
+
+Definition out_path (T : Z) (ss ssi : tbl) (P : paths) (e : @expr Qc) : list Qc :=
+  map (fun t => qeval_td (Some T) (qlookup ss) (qlookup ssi) (penv P ss) e (Z.of_nat t)) (seq 0 (Z.to_nat T)).
+Definition path_of (P : paths) (x : nat) : list Qc := nth x P [].
+
+Lemma out_path_ext T ss ssi P P' e : (forall x, In x (evars e) -> path_of P x = path_of P' x) -> out_path T ss ssi P e = out_path T ss ssi P' e.
+Proof.
+  intros H. unfold out_path. apply map_ext. intros t. apply eval_td_ext. intros x Hx u. unfold penv. unfold path_of in H. rewrite (H x Hx). reflexivity.
+Qed.
+Lemma perturbed_ext P P' l : (forall x, In x l -> path_of P x = path_of P' x) -> existsb (perturbed P) l = existsb (perturbed P') l.
+Proof.
+  intros H. induction l as [|x l IH]; cbn [existsb]; [reflexivity|]. rewrite IH by (intros; apply H; right; assumption).
+  unfold perturbed. unfold path_of in H. rewrite (H x (or_introl eq_refl)). reflexivity.
+Qed.
+
+Lemma path_upd_nth n (p : list Qc) (P : paths) k : (n < length P)%nat -> path_of (upd_nth n p P) k = if Nat.eqb k n then p else path_of P k.
+Proof. intros H. unfold path_of. apply nth_upd_nth. exact H. Qed.
+
+Lemma eval_fold_gen T ss ssi (P : paths) outs : forall P', (forall oe, In oe outs -> (fst oe < length P')%nat) ->
+  let r := fold_left (fun P'' oe => upd_nth (fst oe) (out_path T ss ssi P (snd oe)) P'') outs P' in
+  length r = length P' /\
+  (forall x, ~ In x (map fst outs) -> path_of r x = path_of P' x) /\
+  (NoDup (map fst outs) -> forall oe, In oe outs -> path_of r (fst oe) = out_path T ss ssi P (snd oe)).
+Proof.
+  induction outs as [|oe outs IH]; intros P' Hl; cbn [fold_left map].
+  - split; [reflexivity|]. split; [reflexivity | intros _ ? []].
+  - assert (Hl0 : (fst oe < length P')%nat) by (apply Hl; left; reflexivity).
+    destruct (IH (upd_nth (fst oe) (out_path T ss ssi P (snd oe)) P')) as (L & Hout & Hin).
+    { intros oe' H'. rewrite upd_nth_length by exact Hl0. apply Hl; right; exact H'. }
+    rewrite upd_nth_length in L by exact Hl0. split; [exact L|]. split.
+    + intros x Hx. rewrite Hout by (intros H'; apply Hx; right; exact H').
+      rewrite path_upd_nth by exact Hl0. destruct (Nat.eqb_spec x (fst oe)) as [->|]; [exfalso; apply Hx; left; reflexivity | reflexivity].
+    + intros Hnd oe' [<-|H'].
+      * inversion Hnd as [|? ? Hni Hnd']; subst. rewrite Hout by exact Hni. rewrite path_upd_nth by exact Hl0. rewrite Nat.eqb_refl. reflexivity.
+      * inversion Hnd as [|? ? Hni Hnd']; subst. apply Hin; assumption.
+Qed.
+
+Lemma eval_block_spec (force : bool) T ss ssi P b : (forall o, In o (outs_of b) -> (o < length P)%nat) ->
+  let r := eval_block force T ss ssi P b in
+  length r = length P /\
+  (forall x, ~ In x (outs_of b) -> path_of r x = path_of P x) /\
+  (NoDup (outs_of b) -> forall oe, In oe (sb_outs b) ->
+     path_of r (fst oe) = if force || existsb (perturbed P) (sb_ins b) then out_path T ss ssi P (snd oe) else path_of P (fst oe)).
+Proof.
+  intros Hl. unfold eval_block. destruct (force || existsb (perturbed P) (sb_ins b)).
+  - apply (eval_fold_gen T ss ssi P (sb_outs b) P). intros oe Hoe. apply Hl. apply in_map. exact Hoe.
+  - cbv zeta. split; [reflexivity|]. split; reflexivity.
+Qed.
+
+Lemma nl_eval_untouched (force : bool) T ss ssi N : forall rest P, length P = N -> (forall b' o, In b' rest -> In o (outs_of b') -> (o < N)%nat) ->
+  length (nl_eval force T ss ssi rest P) = N /\ forall x, (forall b', In b' rest -> ~ In x (outs_of b')) -> path_of (nl_eval force T ss ssi rest P) x = path_of P x.
+Proof.
+  induction rest as [|b rest IH]; intros P Hl Hn; cbn [nl_eval fold_left]; [split; [exact Hl | reflexivity]|].
+  destruct (eval_block_spec force T ss ssi P b) as (L & Hout & _).
+  { intros o Ho. rewrite Hl. apply (Hn b o); [left; reflexivity | exact Ho]. }
+  fold (nl_eval force T ss ssi rest (eval_block force T ss ssi P b)).
+  destruct (IH (eval_block force T ss ssi P b)) as (L' & Hun); [rewrite L; exact Hl | intros; eapply Hn; [right; eassumption | assumption] |].
+  split; [exact L'|]. intros x Hx. rewrite Hun by (intros; apply Hx; right; assumption).
+  apply Hout. apply (Hx b). left; reflexivity.
+Qed.
+
+(** what the final paths satisfy: every block's outputs are its expressions evaluated on the final paths when one of its inputs is
+    perturbed, and are what they were in the initial paths otherwise *)
+Definition nl_consistent (force : bool) (T : Z) (ss ssi : tbl) (P0 P : paths) (prog : list sblock) : Prop :=
+  forall b oe, In b prog -> In oe (sb_outs b) ->
+    path_of P (fst oe) = if force || existsb (perturbed P) (sb_ins b) then out_path T ss ssi P (snd oe) else path_of P0 (fst oe).
+
+Lemma nl_eval_consistent (force : bool) T ss ssi N : forall prog P0, length P0 = N -> wf_prog N prog -> nl_consistent force T ss ssi P0 (nl_eval force T ss ssi prog P0) prog.
+Proof.
+  induction prog as [|b rest IH]; intros P0 Hl Hwf b' oe Hb' Hoe; [destruct Hb'|].
+  cbn [wf_prog] in Hwf. destruct Hwf as (Hvars & Hnd & Hlt & Hlater & Hrest).
+  cbn [nl_eval fold_left]. fold (nl_eval force T ss ssi rest (eval_block force T ss ssi P0 b)).
+  destruct (eval_block_spec force T ss ssi P0 b) as (L & Hout & Hin).
+  { intros o Ho. rewrite Hl. apply Hlt. exact Ho. }
+  set (P1 := eval_block force T ss ssi P0 b) in *.
+  destruct (nl_eval_untouched force T ss ssi N rest P1) as (_ & Hun); [rewrite L; exact Hl | apply wf_prog_outs_lt; exact Hrest |].
+  destruct Hb' as [<-|Hb'].
+  - assert (Hins : forall x, In x (sb_ins b) -> path_of (nl_eval force T ss ssi rest P1) x = path_of P0 x).
+    { intros x Hx. rewrite Hun by (intros b2 Hb2 Ho; apply (proj1 (Hlater b2 x Hb2 Ho)); exact Hx).
+      apply Hout. intros Ho. apply (proj2 (Hlt x Ho)). exact Hx. }
+    rewrite Hun by (intros b2 Hb2 Ho; apply (proj2 (Hlater b2 (fst oe) Hb2 Ho)); apply in_map; exact Hoe).
+    rewrite (Hin Hnd oe Hoe). rewrite (perturbed_ext _ P0 (sb_ins b) Hins).
+    destruct (force || existsb (perturbed P0) (sb_ins b)); [|reflexivity].
+    symmetry. apply out_path_ext. intros x Hx. apply Hins. eapply Hvars; eassumption.
+  - assert (Hc : nl_consistent force T ss ssi P1 (nl_eval force T ss ssi rest P1) rest) by (apply IH; [rewrite L; exact Hl | exact Hrest]).
+    rewrite (Hc b' oe Hb' Hoe). destruct (force || existsb (perturbed (nl_eval force T ss ssi rest P1)) (sb_ins b')); [reflexivity|].
+    apply Hout. intros Ho. apply (proj2 (Hlater b' (fst oe) Hb' (in_map fst _ _ Hoe))). exact Ho.
+Qed.
+
+Lemma nl_consistent_unique (force : bool) T ss ssi N prog (P0 P P' : paths) : wf_prog N prog ->
+  nl_consistent force T ss ssi P0 P prog -> nl_consistent force T ss ssi P0 P' prog ->
+  (forall x, (forall b, In b prog -> ~ In x (outs_of b)) -> path_of P x = path_of P' x) ->
+  forall b o, In b prog -> In o (outs_of b) -> path_of P o = path_of P' o.
+Proof.
+  induction prog as [|b0 rest IH]; intros Hwf Hc Hc' Hext b o Hb Ho; [destruct Hb|].
+  cbn [wf_prog] in Hwf. destruct Hwf as (Hvars & Hnd & Hlt & Hlater & Hrest).
+  assert (Hins : forall x, In x (sb_ins b0) -> path_of P x = path_of P' x).
+  { intros x Hx. apply Hext. intros b1 [<-|Hb1] Hox; [apply (proj2 (Hlt x Hox)); exact Hx | apply (proj1 (Hlater b1 x Hb1 Hox)); exact Hx]. }
+  assert (Hb0 : forall o0, In o0 (outs_of b0) -> path_of P o0 = path_of P' o0).
+  { intros o0 Ho0. unfold outs_of in Ho0. apply in_map_iff in Ho0. destruct Ho0 as [oe [<- Hoe]].
+    rewrite (Hc b0 oe (or_introl eq_refl) Hoe), (Hc' b0 oe (or_introl eq_refl) Hoe).
+    rewrite (perturbed_ext P P' (sb_ins b0) Hins). destruct (force || existsb (perturbed P') (sb_ins b0)); [|reflexivity].
+    apply out_path_ext. intros x Hx. apply Hins. eapply Hvars; eassumption. }
+  destruct Hb as [<-|Hb]; [apply Hb0; exact Ho|].
+  apply (IH Hrest (fun b1 oe H1 H2 => Hc b1 oe (or_intror H1) H2) (fun b1 oe H1 H2 => Hc' b1 oe (or_intror H1) H2)) with (b := b); [|exact Hb | exact Ho].
+  intros x Hx. destruct (in_dec Nat.eq_dec x (outs_of b0)) as [Hi|Hn]; [apply Hb0; exact Hi|].
+  apply Hext. intros b1 [<-|Hb1]; [exact Hn | apply Hx; exact Hb1].
+Qed.
+
+Theorem nl_order_independent_lemma (force : bool) T ss ssi N prog prog' P0 : length P0 = N -> wf_prog N prog -> wf_prog N prog' ->
+  (forall b, In b prog <-> In b prog') -> nl_eval force T ss ssi prog P0 = nl_eval force T ss ssi prog' P0.
+Proof.
+  intros Hl Hwf Hwf' Hperm.
+  pose proof (nl_eval_consistent force T ss ssi N prog P0 Hl Hwf) as Hc.
+  pose proof (nl_eval_consistent force T ss ssi N prog' P0 Hl Hwf') as Hc'.
+  destruct (nl_eval_untouched force T ss ssi N prog P0 Hl (wf_prog_outs_lt N prog Hwf)) as [L Hun].
+  destruct (nl_eval_untouched force T ss ssi N prog' P0 Hl (wf_prog_outs_lt N prog' Hwf')) as [L' Hun'].
+  assert (Hc2 : nl_consistent force T ss ssi P0 (nl_eval force T ss ssi prog' P0) prog) by (intros b oe Hb Hoe; exact (Hc' b oe (proj1 (Hperm b) Hb) Hoe)).
+  assert (Hext : forall x, (forall b, In b prog -> ~ In x (outs_of b)) -> path_of (nl_eval force T ss ssi prog P0) x = path_of (nl_eval force T ss ssi prog' P0) x).
+  { intros x Hx. rewrite Hun by exact Hx. rewrite Hun'; [reflexivity|]. intros b Hb. apply Hx. apply Hperm. exact Hb. }
+  apply (nth_ext _ _ [] []); [rewrite L, L'; reflexivity|]. intros x _.
+  destruct (existsb (fun b => memb x (outs_of b)) prog) eqn:E.
+  - apply existsb_exists in E. destruct E as [b [Hb Ho]]. apply memb_In in Ho.
+    exact (nl_consistent_unique force T ss ssi N prog P0 _ _ Hwf Hc Hc2 Hext b x Hb Ho).
+  - apply Hext. intros b Hb Ho. assert (existsb (fun b => memb x (outs_of b)) prog = true); [|congruence].
+    apply existsb_exists. exists b. split; [exact Hb | apply memb_In; exact Ho].
 Qed.
